@@ -78,6 +78,16 @@ def family():
             ["M", [["b", S(2)], ["a", ["M", [["b", S(3)], ["c", S(4)]],
                                       None]]], None],
             ["M", [["c", S(1)], ["a", S(2)], ["d", S(3)]], None],
+            # two hashes holding the same key with equal (shared-object)
+            # scalars: a rule for one path must not leak to the other
+            ["M", [["a", ["M", [["a", S(1)]], None]],
+                   ["b", ["M", [["a", S(1)]], None]]], None],
+            ["M", [["a", ["M", [["a", S(5)]], None]],
+                   ["b", ["M", [["a", S(6)]], None]]], None],
+            ["M", [["a", ["M", [["a", S(None)], ["b", S(1)]], None]],
+                   ["b", ["M", [["a", S(None)], ["b", S(1)]], None]]], None],
+            ["M", [["a", ["M", [["a", S("x")], ["b", S(7)]], None]],
+                   ["b", ["M", [["a", S("y")], ["b", S(8)]], None]]], None],
             ["M", [["d", S(9)], ["b", S(8)], ["c", S(7)], ["e", S(6)]], None],
             S(5), S("x"), S(None)]
     return out
@@ -220,8 +230,17 @@ def policy_for(i, with_rules=True):
     h, a, o, s = ALL_POLICIES[i % len(ALL_POLICIES)]
     pol = mm.Policy(h, a, o, s)
     if with_rules and i % 4 == 3:
-        if i % 8 == 3:
-            pol.rules = {("a",): ["left", "right"][(i // 8) % 2]}
+        k = (i // 4) % 6
+        if k == 0:
+            pol.rules = {("a",): "left"}
+        elif k == 1:
+            pol.rules = {("a",): "right"}
+        elif k == 2:
+            pol.rules = {("a", "a"): "left"}
+        elif k == 3:
+            pol.rules = {("b", "a"): "left"}
+        elif k == 4:
+            pol.rules = {("a", "b"): "left", ("b",): "right"}
         else:
             pol.keys = {("a",): "b"}
     return pol
